@@ -155,6 +155,36 @@ def extras(ctx, prop):
             for cap in list(range(0, min(k, 8) + 3)):
                 for e in ((0,) if kind == "h" else (0, 1, 2, 3)):
                     cs.append(("A", "cap.%d.%d.%d" % (i, cap, e), kind, e, cfg, cap, b))
+        # lines that are dropped (ignore_invalid_headers_*) do not count against the capacity: every sequence of up
+        # to three lines out of one good and three droppable ones, at every capacity 0..3
+        lines = (b"A: 1", b"not a header", b": nameless", b"bad name: x")
+        seqs = [()]
+        for _ in range(3):
+            seqs = seqs + [t + (l,) for t in seqs if len(t) == max(len(u) for u in seqs) for l in lines]
+        j = 0
+        for t in sorted(set(seqs)):
+            if not t:
+                continue
+            for kind, start, ign in (("q", b"GET / HTTP/1.1\r\n", gen.CFG_IGN_REQ), ("p", b"HTTP/1.1 200 OK\r\n", gen.CFG_IGN_RESP)):
+                b = start + b"".join(l + b"\r\n" for l in t) + b"\r\n"
+                for cap in range(0, 4):
+                    for e in (1, 3):
+                        cs.append(("A", "cap.j%d.%d.%d" % (j, cap, e), kind, e, ign, cap, b))
+                j += 1
+    if prop in ("C04", "C03"):
+        # an indented first header line (allow_space_before_first_header_name): 1..8 blanks / tabs, CRLF and LF line
+        # ends, a body behind the head -- `Complete(n)` must cover every slice handed out
+        j = 0
+        for kind, start in (("q", b"GET /index.html HTTP/1.1"), ("p", b"HTTP/1.1 200 OK")):
+            for eol in (b"\r\n", b"\n"):
+                for k in range(1, 9):
+                    for ws in (b" " * k, b"\t" * k, (b" \t" * k)[:k]):
+                        for hdrs in ((b"Host: example.org",), (b"A: b", b"Accept: */*"), (b"X:",)):
+                            b = start + eol + ws + eol.join(hdrs) + eol + eol + b"BODYBODY"
+                            for cfg in (gen.CFG_SP_BEFORE, 0x7f):
+                                for e in (1, 3):
+                                    cs.append(("A", "ind.%d.%d.%d" % (j, cfg, e), kind, e, cfg, 4, b))
+                            j += 1
     return cs
 
 
@@ -859,6 +889,13 @@ def run_C15(ctx):
     for i in range(100 if q else 3000):
         kind = "qp"[i % 2]
         bases.append((kind, gen.mutate(r, gen.GRAM[kind](r, lenient=i % 2))))
+    # reason phrases around the one stated exception: obs-text first / last / alone, leading blanks and tabs
+    for ver in (b"HTTP/1.1 ", b"HTTP/1.0 "):
+        for sp in (b" ", b"  ", b"   "):
+            for reason in (b"\xc9chec interne", b"\xff", b"\x80 ok", b"caf\xe9", b" \xc9x", b"\xc3\xa9t\xc3\xa9", b"OK\xff",
+                           b"\tOK", b"OK ", b"", b"O K", b"\xc9", b"a\x80b"):
+                for eol in (b"\r\n", b"\n"):
+                    bases.append(("p", ver + b"200" + sp + reason + eol + b"A: b" + eol + eol))
     cases = []
     # both configured entry points: `parse_with_config` (entry 1, behind ParserConfig::parse_request / parse_response)
     # and ParserConfig::parse_*_with_uninit_headers (entry 3), which reach the core by different routes
